@@ -113,12 +113,12 @@ def _relocate(program, modpath):
     for pk in program["pkgs"]:
         files = []
         for f in pk["files"]:
-            src = f["src"].replace('"m/', '"%s/' % modpath)
+            src = f["src"].replace('"m/', '"%s/' % modpath).replace("/MODSELF/", "/%s/" % modpath)
             if "@packageonly" in src:
                 src = "\n".join(re.sub(r"(?<![\w/])m/", modpath + "/", l) if l.lstrip().startswith("// @packageonly") else l
                                 for l in src.split("\n"))
-            files.append({"name": f["name"], "src": src})
-        out["pkgs"].append({"path": modpath + pk["path"][1:], "name": pk["name"], "files": files})
+            files.append({"name": f["name"].replace("/MODSELF/", "/%s/" % modpath), "src": src})
+        out["pkgs"].append({"path": (modpath + pk["path"][1:]).replace("/MODSELF/", "/%s/" % modpath), "name": pk["name"], "files": files})
     if program.get("named"):
         out["named"] = [modpath + n[1:] for n in program["named"]]
     if program.get("schedule"):
@@ -137,9 +137,9 @@ def write_module(root, program, modpath="m"):
         f.write("module %s\n\ngo 1.25\n" % modpath)
     for pk in program["pkgs"]:
         for fl in pk["files"]:
-            p = os.path.join(root, fl["name"])
+            p = os.path.join(root, fl["name"].replace("/MODSELF/", "/%s/" % modpath))
             os.makedirs(os.path.dirname(p), exist_ok=True)
-            src = fl["src"]
+            src = fl["src"].replace("/MODSELF/", "/%s/" % modpath)
             if modpath != "m":
                 src = src.replace('"m/', '"%s/' % modpath)
                 if "@packageonly" in src:
